@@ -154,13 +154,14 @@ RecipOK(s) ==
     LET t == RecipTrunc(s)
         t2 == IF s.neg THEN Sub(t, BOne) ELSE Add(t, BOne)
     IN {r \in {t, t2} : InWord(r) /\ LT(Abs(Sub(Mul(r, s), Pow2(2 * FB))), Abs(s))}
-(* DEVIATION C11-scale-reciprocal-wrap (reproduced): for |s| <= 2 raw units the truncated reciprocal  *)
+(* DEVIATION C11-scale-reciprocal-wrap (reproduced; REPAIRED in /repo 7c01373, hence no longer an    *)
+(* open finding and never enabled by the trace specification): for |s| <= 2 raw units the truncated reciprocal  *)
 (* (2^32, 2^31) does not fit the word and the code's cast wraps it (to 0, INT32_MIN) instead of       *)
 (* reporting overflow.  Accepted: exactly the wrapped value.                                         *)
 Recips(devs, s) ==
     RecipOK(s) \cup (IF DevRecip \in devs /\ ~InWord(RecipTrunc(s)) THEN {WrapWord(RecipTrunc(s))} ELSE {})
 
-(* DEVIATION C11-negate-min-wrap (reproduced): -x for x = INT32_MIN wraps to INT32_MIN (C undefined    *)
+(* DEVIATION C11-negate-min-wrap (reproduced; REPAIRED in /repo 7c01373, no longer enabled): -x for x = INT32_MIN wraps to INT32_MIN (C undefined    *)
 (* behaviour) in rotate (-s) and translate (-tx, -ty).  Mathematically -x = 2^31 is used.            *)
 Negs(devs, x) == {Neg(x)} \cup (IF DevNegMin \in devs /\ x = WMin THEN {WMin} ELSE {})
 
@@ -190,7 +191,7 @@ RotatePost(devs, c) ==                                        \* p = cos, q = si
             /\ c.hr => MulRel(devs, c.rin, RotMat(c.p, n, c.q), TRUE, c.rout)
        ELSE \/ c.hf /\ MulRel(devs, RotMat(c.p, c.q, n), c.fin, FALSE, c.fin)
             \/ c.hr /\ MulRel(devs, c.rin, RotMat(c.p, n, c.q), FALSE, c.rin)
-            \/ (c.hf \/ c.hr) /\ ~InWord(Neg(c.q))        \* the rotation matrix itself is not representable
+            \/ ~InWord(Neg(c.q))       \* the rotation (c, s) itself is not representable (whichever outputs are requested)
 
 TranslatePost(devs, c) ==                                     \* p = tx, q = ty
     \E nx \in Negs(devs, c.p), ny \in Negs(devs, c.q) :
